@@ -348,6 +348,8 @@ static int String_Format_To(var self, int pos, const char* fmt, va_list va) {
   int size = vsnprintf(NULL, 0, fmt, va_tmp);
   va_end(va_tmp);
   
+  if (size < 0) { return size; }
+  
 #if CELLO_ALLOC_CHECK == 1
   if (header(self)->alloc is (var)AllocStack
   or  header(self)->alloc is (var)AllocStatic) {
